@@ -60,12 +60,13 @@ func (rm *relayManager) GetUseRelays() bool {
 // stage 0 handshake packet for vpnIp through it.
 func (rm *relayManager) StartRelays(f *Interface, vpnIp netip.Addr, hh *HandshakeHostInfo, stage0 []byte) {
 	hostinfo := hh.hostinfo
-	if !rm.GetUseRelays() || len(hostinfo.remotes.relays) == 0 {
+	// The relay list is rebuilt under the remote list's lock by lighthouse updates, read it the same way
+	relays := hostinfo.remotes.CopyRelays()
+	if !rm.GetUseRelays() || len(relays) == 0 {
 		hh.lastRelays = nil
 		return
 	}
 
-	relays := hostinfo.remotes.relays
 	listLevel := slog.LevelDebug
 	prior := hh.lastRelays
 	if !slices.Equal(relays, prior) {
